@@ -60,7 +60,7 @@ def fam_txn(ctx):
 
 
 CRASH_SWITCHES = ["BugDeleteInputsFirst", "BugNoSyncTable", "BugCreateInPlace", "BugWalSkipped", "BugTornTailFatal",
-                  "BugPerEntryWal", "BugAckBeforeSync", "BugDelWalFirst", "BugCloseFlushesFirst"]
+                  "BugPerEntryWal", "BugAckBeforeSync", "BugDelWalFirst", "BugCloseFlushesFirst", "BugExitWithQueue"]
 
 
 def crash_cfg(keys=2, maxtxn=3, mem=1, queue=1, l0=1, crashes=1, closes=1, torn=False, on=(), invs=None):
@@ -233,7 +233,91 @@ def fam_levels(ctx):
     return scen
 
 
-FAMILIES = {"wm": fam_wm, "txn": fam_txn, "crash": fam_crash, "crash_torn": lambda ctx: fam_crash(ctx, torn=True)}
+CONC_SWITCHES = ["BugSendUnderDbMu", "BugLockOrder", "BugNoDoneOnConflict", "BugExitWithQueue"]
+
+
+def conc_cfg(clients, maxtxn, queue, rot, on=(), live=False):
+    kw = dict(SPEC="FairSpec" if live else "Spec", CLIENTS=", ".join(map(str, range(1, clients + 1))), MAXTXN=maxtxn,
+              QUEUE=queue, ROT=rot, PROPS="PROPERTY EveryCallReturns" if live else "")
+    for s in CONC_SWITCHES:
+        kw[s] = T if s in on else F
+    return tlc.fill("MC_Conc.cfg.tmpl", **kw)
+
+
+def fam_conc(ctx):
+    """Conc.tla: locks, flush queue (capacity 0..2), Close handshake, commit mark: no reachable state
+    without a successor except "everything returned and closed"; every call returns under weak fairness."""
+    bounds = [(2, 2, 0, 1), (2, 2, 1, 1), (2, 2, 2, 1)] if ctx.quick else \
+        [(2, 2, 0, 1), (2, 2, 1, 1), (2, 2, 2, 1), (3, 1, 0, 1), (3, 1, 1, 1), (3, 2, 1, 2), (2, 3, 1, 2)]
+    for b in bounds:
+        r = ctx.model_check("Conc", conc_cfg(*b), timeout=3000)
+        expect_ok(ctx, r, "Conc %s" % (b,))
+    for b in ([(2, 2, 1, 1)] if ctx.quick else [(2, 2, 0, 1), (2, 2, 1, 1), (3, 1, 1, 1)]):
+        r = ctx.model_check("Conc", conc_cfg(*b, live=True), timeout=3000)
+        expect_ok(ctx, r, "Conc liveness %s" % (b,))
+    ctx.cov.setdefault("model_bounds", {})["Conc(clients,txns/client,queue,rotate every)"] = bounds
+
+    def one(s):
+        rr = ctx.model_check("Conc", conc_cfg(2, 2, 1, 1, on=(s,)), timeout=900, expect_violation=True, workers=4)
+        expect_violation(ctx, rr, s)
+        m = re.findall(r"Invariant (\w+) is violated", rr["out"])
+        return s, (m[0] if m else "violated")
+
+    ctx.cov.setdefault("deviation_switches", {}).update(dict(ctx.par(one, CONC_SWITCHES, workers=4)))
+
+
+def fam_crash_clean(ctx):
+    """Crash.tla restricted to clean Close/Open cycles (C02): no crash, up to two closes."""
+    pts = [dict(keys=2, maxtxn=3, mem=1, queue=1, l0=1, crashes=0, closes=2),
+           dict(keys=2, maxtxn=3, mem=2, queue=2, l0=1, crashes=0, closes=2)]
+    if not ctx.quick:
+        pts.append(dict(keys=2, maxtxn=4, mem=2, queue=0, l0=2, crashes=0, closes=3))
+    for pt in pts:
+        r = ctx.model_check("Crash", crash_cfg(invs=["OpenOk", "Durable", "Fresh", "ReopenExact"], **pt), timeout=3000)
+        expect_ok(ctx, r, "Crash (clean close) %s" % (pt,))
+    ctx.cov.setdefault("model_bounds", {})["Crash(clean close/open cycles)"] = pts
+    rr = ctx.model_check("Crash", crash_cfg(keys=2, maxtxn=3, mem=2, queue=2, l0=1, crashes=0, closes=2,
+                                            invs=["OpenOk", "Durable", "Fresh", "ReopenExact"], on=("BugExitWithQueue",)),
+                         timeout=900, expect_violation=True)
+    expect_violation(ctx, rr, "BugExitWithQueue")
+    ctx.cov.setdefault("deviation_switches", {})["BugExitWithQueue (Close returns with memtables queued)"] = "Durable"
+
+
+STORE_SWITCHES = ["BugRemoveNewestImm", "BugEnqueueBeforePush", "BugImmOldestFirst", "BugDropTombstones",
+                  "BugDiscardAtNextTs", "BugMarkPassesReader"]
+
+
+def store_cfg(keys, mc, mem, queue, l0, readers, on=()):
+    kw = dict(KEYS=", ".join(map(str, range(1, keys + 1))), MAXCOMMITS=mc, MEM=mem, QUEUE=queue, L0=l0, READERS=readers)
+    for s in STORE_SWITCHES:
+        kw[s] = T if s in on else F
+    return tlc.fill("MC_Store.cfg.tmpl", **kw)
+
+
+def fam_store(ctx):
+    """Store.tla: every interleaving of committer steps, flusher stages, reader open/close and watermark
+    moves; ReadsCorrect for every key x every permitted snapshot, NoPanic, GcSafe in every state."""
+    bounds = [(2, 3, 1, 1, 1, 1)] if ctx.quick else \
+        [(2, 3, 1, 1, 1, 1), (2, 4, 1, 1, 1, 1), (2, 4, 2, 2, 1, 1), (2, 4, 1, 0, 2, 1), (2, 3, 1, 2, 2, 2)]
+    for b in bounds:
+        r = ctx.model_check("Store", store_cfg(*b), timeout=3400)
+        expect_ok(ctx, r, "Store %s" % (b,))
+    ctx.cov.setdefault("model_bounds", {})["Store(keys,commits,memThreshold,queue,L0Target,readers)"] = bounds
+    by = {"C01": ["BugRemoveNewestImm", "BugImmOldestFirst", "BugDropTombstones"],
+          "C05": ["BugDiscardAtNextTs", "BugMarkPassesReader", "BugRemoveNewestImm"],
+          "C12": ["BugEnqueueBeforePush"]}
+    sws = by.get(ctx.id, STORE_SWITCHES) if ctx.quick else STORE_SWITCHES
+
+    def one(s):
+        rr = ctx.model_check("Store", store_cfg(2, 4, 1, 2, 1, 1, on=(s,)), timeout=1200, expect_violation=True, workers=4)
+        expect_violation(ctx, rr, s)
+        m = re.findall(r"Invariant (\w+) is violated", rr["out"])
+        return s, (m[0] if m else "violated")
+
+    ctx.cov.setdefault("deviation_switches", {}).update(dict(ctx.par(one, sws, workers=3)))
+
+
+FAMILIES = {"store": fam_store, "crash_clean": fam_crash_clean, "conc": fam_conc, "wm": fam_wm, "txn": fam_txn, "crash": fam_crash, "crash_torn": lambda ctx: fam_crash(ctx, torn=True)}
 
 
 def run_family(ctx, name):
